@@ -93,6 +93,8 @@ type Op struct {
 	Vals        []int // callredef: serial per declared input (filled at run time)
 	OrdSeed     uint64
 	SharePrefix int // >0: Defaults = Defaults of op (SharePrefix-1) plus more, built on the same backing array
+	SliceOf     int // >0: the argument slice is a PREFIX (base[:n], capacity kept) of the slice op (SliceOf-1) passed
+	ShareOpts   int // >0 (redefine): Opts = Opts of op (ShareOpts-1) plus more, passed in a slice built on the same backing array
 }
 
 type Scenario struct {
@@ -176,6 +178,9 @@ func (rt *runtimeT) errOf(e int) error {
 		x = (*errPtr)(nil)
 	case 903:
 		x = errno(903)
+	case 904:
+		// a converter that forwards the unsatisfied-argument error of a nested Call
+		x = &am.ErrArgumentUnsatisfied{}
 	default:
 		x = fmt.Errorf("scenario error %d", e)
 	}
@@ -703,6 +708,11 @@ func (rt *runtimeT) classify(err error, targetRan bool) string {
 	if err == nil {
 		return ""
 	}
+	for e, x := range rt.errs {
+		if _, isUA := x.(*am.ErrArgumentUnsatisfied); isUA && err == x {
+			return fmt.Sprintf("(ObsErrId %s)", z(e)) // the converter's own error value, verbatim
+		}
+	}
 	var ua *am.ErrArgumentUnsatisfied
 	if errors.As(err, &ua) {
 		var args, ins, convs []string
@@ -806,7 +816,7 @@ var lastCores []string // observation + events of each op of the last scenario r
 func runScenario(sc *Scenario, seed uint64, wd *int64) (terms []string, cats []string, panicked bool) {
 	lastCores = nil
 	rt := &runtimeT{sc: sc, errs: map[int]error{}, ftypes: map[reflect.Type]int{}, watchdog: wd}
-	for _, t := range concreteTys {
+	for _, t := range append(append([]int(nil), concreteTys...), extraTys...) {
 		// identity function types of Convert get the ids the model expects
 		rt.ftypes[reflect.FuncOf([]reflect.Type{tyOf[t]}, []reflect.Type{tyOf[t]}, false)] = -1 - t
 	}
@@ -824,6 +834,8 @@ func runScenario(sc *Scenario, seed uint64, wd *int64) (terms []string, cats []s
 	// does; default slices have spare capacity and may share a backing array
 	pre := map[int]*am.Func{}
 	preByKey := map[string]*am.Func{}
+	redefArgs := map[int][]am.Arg{}
+	argsBy := map[int][]am.Arg{}
 	preErr := map[int]bool{}
 	backing := map[int][]am.Arg{}
 	for oi := range sc.Ops {
@@ -889,6 +901,11 @@ func runScenario(sc *Scenario, seed uint64, wd *int64) (terms []string, cats []s
 					}
 				}
 				args := rt.callArgs(op.Opts)
+				if op.SliceOf > 0 && len(argsBy[op.SliceOf-1]) >= 1+len(op.Opts) {
+					args = argsBy[op.SliceOf-1][:1+len(op.Opts)]
+				} else {
+					argsBy[oi] = args
+				}
 				r := f.Call(args...)
 				ran := false
 				for _, e := range rt.events {
@@ -942,6 +959,20 @@ func runScenario(sc *Scenario, seed uint64, wd *int64) (terms []string, cats []s
 					}
 				}
 				args := rt.callArgs(op.Opts)
+				if op.SliceOf > 0 && len(argsBy[op.SliceOf-1]) >= 1+len(op.Opts) {
+					// Redefine(full[:n]...): a sub-slice of a list the caller keeps using
+					args = argsBy[op.SliceOf-1][:1+len(op.Opts)]
+				} else if op.ShareOpts > 0 && redefArgs[op.ShareOpts-1] != nil {
+					// append(base, more...) on the slice an earlier Redefine was given
+					base := redefArgs[op.ShareOpts-1]
+					args = append(base, rt.goOpts(op.Opts[len(sc.Ops[op.ShareOpts-1].Opts):])...)
+				} else if len(args) > 0 {
+					// the caller's slice has spare capacity
+					withCap := make([]am.Arg, len(args), len(args)+6)
+					copy(withCap, args)
+					args = withCap
+					redefArgs[oi] = args
+				}
 				nf, err := f.Redefine(args...)
 				c := rt.classify(err, false)
 				if c == "" {
@@ -974,12 +1005,27 @@ func runScenario(sc *Scenario, seed uint64, wd *int64) (terms []string, cats []s
 			p, pmsg = withRecover(func() {
 				args := []am.Arg{nullLog}
 				var given []string
+				nilGiven := false
+				for _, o := range append(append([]Opt(nil), sc.Ops[op.Ref].Opts...), sc.Ops[op.Ref].Defaults...) {
+					for _, v := range o.Vals {
+						if v != nil && v.Serial == 0 {
+							nilGiven = true // values are identified by their serial: one zero value at most
+						}
+					}
+				}
 				for i, v := range redefIns[op.Ref] {
 					serial := 500 + 10*oi + i
 					tid := tidOfType[v.Type]
 					ctid := tid
 					if c, ok := carrier[tid]; ok {
 						ctid = c
+					}
+					switch tyOf[ctid].Kind() {
+					case reflect.Ptr, reflect.Slice, reflect.Map, reflect.Chan:
+						if (oi+i)%3 == 0 && !nilGiven {
+							serial = 0 // a nil pointer / slice / map / channel is a legitimate value
+							nilGiven = true
+						}
 					}
 					if v.Name != "" && ctid != tid {
 						// a named input of an interface type only accepts a value known under
